@@ -599,9 +599,19 @@ func scenC07(r *Run, judged bool) {
 			act = g.nextMash()
 		}
 		typed = append(typed, fmt.Sprintf("%q", act))
-		for _, c := range act {
-			u.Key(c)
+		for ci, c := range act {
+			ki := u.Key(c)
 			m.key(c)
+			if judged && strings.HasPrefix(string(act), "\x00burst") {
+				// (never generated: placeholder to keep the marker out of real input)
+			}
+			if judged && burstAction(act) && ci < len(act)-1 {
+				// no settling inside a burst: the next key is pressed as soon as this one was
+				// handled, while the surroundings of the new page are still being loaded
+				r.Drive(func() bool { return u.Returned(ki) }, hugeHorizon, stepCap)
+				r.S.Probe("burst_keys_without_settling")
+				continue
+			}
 			if !r.Settle(stepCap) {
 				uiLiveness(r, u, false)
 				return
@@ -631,11 +641,32 @@ func scenC07(r *Run, judged bool) {
 	_ = time.Second
 }
 
+// burstAction: a page-creating key (synchronous: no Loading… mode, so later keys are not
+// swallowed) followed by history/centre keys, whose effect does not depend on what is loaded.
+func burstAction(act []byte) bool {
+	if len(act) < 2 || !strings.ContainsRune(" cra", rune(act[0])) {
+		return false
+	}
+	for _, c := range act[1:] {
+		if !strings.ContainsRune("hlg cra", rune(c)) {
+			return false
+		}
+	}
+	return true
+}
+
 // nextJudged draws the next action from the documented keymap, avoiding inputs whose effect the
 // keymap leaves open.
 func (g *keyGen) nextJudged(m *kmModel) []byte {
 	t := g.r.W
-	switch t.Weighted(9, 7, 4, 2, 4, 3, 2, 4, 3, 1, 2, 1) {
+	switch t.Weighted(9, 7, 4, 2, 4, 3, 2, 4, 3, 1, 2, 1, 4) {
+	case 12:
+		// a burst: open a page and move through the history before its surroundings have loaded
+		b := []byte{" cra"[t.Weighted(5, 2, 1, 1)]}
+		for k := 1 + t.Draw(3); k > 0; k-- {
+			b = append(b, "hhlg "[t.Draw(5)])
+		}
+		return b
 	case 0:
 		return []byte{'j'}
 	case 1:
@@ -667,7 +698,8 @@ func (g *keyGen) nextJudged(m *kmModel) []byte {
 		return []byte{27}
 	case 10:
 		// typing and cancelling / mistyping a command
-		return []byte([]string{":open\r", ":\r", ":fee\x7f\x7f\x7f\x7f", ":bogus cmd\r", ":open x\x1b", ":feed\r", ": open y\r"}[t.Draw(7)])
+		return []byte([]string{":open\r", ":\r", ":fee\x7f\x7f\x7f\x7f", ":bogus cmd\r", ":open x\x1b", ":feed\r", ": open y\r",
+			":\xe9\x7f\x7f", ":ab\xff\x9b\x7f\x7f\x7f\x7f\x7f", ":\xc3\xa9\x7f\x7f\x7f", ":open \xfc\x7f\x7f\x7f\x7f\x7f\x7f\x7f"}[t.Draw(11)])
 	default:
 		// bytes that are not in the keymap do nothing
 		return []byte{[]byte{'x', 'Z', '~', '\t', 0x9b, 0xff, 1, '?', 'J', 'G', '-'}[t.Draw(11)]}
